@@ -258,7 +258,7 @@ def plan_generate(ctx, rnd, cid0):
               {"what": "dsa-domain", "bits": 1024, "kid": "d1024", "corr": []}, {"what": "dsa-domain", "bits": 512, "kid": "d512", "corr": []},
               {"what": "dsa-domain", "bits": 2048, "kid": "d1024", "corr": []},
               {"what": "dsa-domain", "bits": 1024, "kid": "d1024", "corr": [rnd.choice(["g=1", "g=p-1", "g+p"])]},
-              {"what": "dsa-domain", "bits": 1024, "kid": "d1024", "corr": [rnd.choice(["q:=other prime", "q:=2q", "p+2q"])]},
+              {"what": "dsa-domain", "bits": 1024, "kid": "d1024", "corr": [rnd.choice(["q:=other prime", "q:=2q", "p+2q", "p composite,consistent"])]},
               {"what": "dsa-domain", "bits": 1024, "kid": "d1024", "corr": [rnd.choice(["p=0", "q=0"])]}]
         g += [{"what": "elgamal", "bits": rnd.choice([161, 168, 176, 184, 192])}]
         curves = [rnd.choice(["P-192", "P-224"]), "P-256", "P-521" if ctx.seed % 4 == 1 else "P-384", "Ed25519", "Curve25519"]
@@ -275,7 +275,7 @@ def plan_generate(ctx, rnd, cid0):
         g += [{"what": "dsa-domain", "bits": 1024, "kid": "d1024", "corr": [], "deep": True}, {"what": "dsa-domain", "bits": 2048, "kid": "d2048", "corr": []},
               {"what": "dsa-domain", "bits": 512, "kid": "d512", "corr": []}, {"what": "dsa-domain", "bits": 2048, "kid": "d1024", "corr": []},
               {"what": "dsa-domain", "bits": 1024, "kid": "toy", "corr": []}]
-        g += [{"what": "dsa-domain", "bits": 1024, "kid": "d1024", "corr": [c]} for c in ("g=1", "g=p-1", "g+p", "q:=other prime", "q:=2q", "p+2q", "p=0", "q=0")]
+        g += [{"what": "dsa-domain", "bits": 1024, "kid": "d1024", "corr": [c]} for c in ("g=1", "g=p-1", "g+p", "q:=other prime", "q:=2q", "p+2q", "p=0", "q=0", "p composite,consistent")]
         g += [{"what": "elgamal", "bits": b} for b in (rnd.choice([161, 176, 192]), 256, rnd.choice([224, 320, 384]))]
         for c in NIST + ["Ed25519", "Ed448", "Curve25519", "Curve448"]:
             g += [{"what": "ecc", "curve": c} for _ in range(1 if c in ("P-521", "Ed448", "Curve448") else 3)]
